@@ -18,7 +18,7 @@ from vk import probe
 from vk import tree as vtree
 
 LEVEL = 'exploration'
-RULE = ('histories over a pool of 13 trees (elisions, nested scopes, comments, two source paths, one scope of 420 names) and 11 printer objects '
+RULE = ('histories over a pool of 13 trees (elisions, nested scopes, comments, two source paths, one scope of 420 names) and 13 printer objects '
         '(pretty x 3 indents, minify x drop_semi, obfuscating x {globals, shadow}, obfuscate+indent composition, '
         'extractor x fold_ops): every history of length <= 2 (thorough: 3) over a reduced alphabet, and random '
         'histories of 50-200 operations favouring abandon / raise immediately before a full call on the same printer; '
@@ -71,7 +71,19 @@ def printers():
                                                      rules.indent('  ')))),
         ('extractor', lambda: extractor()),
         ('extractor_fold', lambda: extractor(fold_ops=True)),
+        # printers built with the optional constructor arguments: caller-owned lists / dicts of extra hooks and
+        # handlers (a pure hook and handlers that change nothing)
+        ('obfuscate_with_hook_list', lambda: Unparser(
+            rules=(rules.minify(drop_semi=False),
+                   rules.obfuscate(obfuscate_globals=True, reserved_keywords=Lexer.keywords_dict.keys())),
+            prewalk_hooks=[_pure_hook])),
+        ('pretty_with_handler_dicts', lambda: Unparser(
+            rules=(rules.indent('  '),), layout_handlers={}, deferrable_handlers={}, prewalk_hooks=[_pure_hook, _pure_hook])),
     ]
+
+
+def _pure_hook(dispatcher, node):
+    return node
 
 
 def frag_key(f):
